@@ -308,23 +308,30 @@ fn child_main() {
 /// A child process = one (rayon threads, tokio workers) configuration.  Guards (LOAD_RULES): the child's address space is
 /// capped at 4 GB (`ulimit -v`, a runaway statement aborts the child instead of eating the machine) and every request has a
 /// wall-clock limit; a child that dies or does not answer in time is killed and replaced, the request reported as `lost`.
-struct Kid { proc: Child, inp: ChildStdin, rx: std::sync::mpsc::Receiver<String>, threads: usize, workers: usize }
+pub struct Kid { proc: Child, inp: ChildStdin, rx: std::sync::mpsc::Receiver<String>, pub threads: usize, pub workers: usize, fam: String, envs: Vec<(String, String)> }
 
-fn spawn_kid(threads: usize, workers: usize) -> Kid {
+fn spawn_kid(threads: usize, workers: usize) -> Kid { spawn_kid_with("C07", threads, workers, vec![]) }
+
+/// child of family `fam` (re-executed with `--opt child=1`) with the given rayon / tokio sizes and extra environment
+pub fn spawn_kid_with(fam: &str, threads: usize, workers: usize, envs: Vec<(String, String)>) -> Kid {
     let exe = std::env::current_exe().expect("exe");
-    let mut proc = Command::new("sh").arg("-c").arg("ulimit -v 4194304; exec \"$0\" C07 --opt child=1").arg(exe)
-        .env("RAYON_NUM_THREADS", threads.to_string()).env("IQE_TOKIO_WORKERS", workers.to_string()).env("QE_IPC_CACHE", "0")
+    let mut cmd = Command::new("sh");
+    cmd.arg("-c").arg(format!("ulimit -v 4194304; exec \"$0\" {} --opt child=1", fam)).arg(exe)
+        .env("RAYON_NUM_THREADS", threads.to_string()).env("IQE_TOKIO_WORKERS", workers.to_string()).env("QE_IPC_CACHE", "0");
+    for (k, v) in &envs { cmd.env(k, v); }
+    let mut proc = cmd
         .stdin(Stdio::piped()).stdout(Stdio::piped()).stderr(Stdio::null()).spawn().expect("child");
     let inp = proc.stdin.take().unwrap();
     let out = proc.stdout.take().unwrap();
     let (tx, rx) = std::sync::mpsc::channel::<String>();
     std::thread::spawn(move || { for l in BufReader::new(out).lines() { match l { Ok(l) => { if tx.send(l).is_err() { break; } } Err(_) => break } } });
-    Kid { proc, inp, rx, threads, workers }
+    Kid { proc, inp, rx, threads, workers, fam: fam.to_string(), envs }
 }
 
 impl Kid {
+    pub fn stop(&mut self) { let _ = self.proc.kill(); let _ = self.proc.wait(); }
     /// one request/response within `limit_s` seconds; `{"lost": why}` if the child died or was too slow (it is replaced)
-    fn ask(&mut self, c: &Value, limit_s: u64) -> Value {
+    pub fn ask(&mut self, c: &Value, limit_s: u64) -> Value {
         let ok = writeln!(self.inp, "{}", c).and_then(|_| self.inp.flush()).is_ok();
         let why = if !ok { "child process died before the request" } else {
             match self.rx.recv_timeout(std::time::Duration::from_secs(limit_s)) {
@@ -334,7 +341,7 @@ impl Kid {
             }
         };
         let _ = self.proc.kill(); let _ = self.proc.wait();
-        *self = spawn_kid(self.threads, self.workers);
+        *self = spawn_kid_with(&self.fam.clone(), self.threads, self.workers, self.envs.clone());
         json!({"lost": why})
     }
 }
@@ -503,5 +510,5 @@ pub fn main(o: &Opts) {
             if let Some(i) = run_case(&mut kids, &c, pre_answer) { emit(c, i); n += 1; }
         }
     }
-    for k in kids.iter_mut() { let _ = k.proc.kill(); let _ = k.proc.wait(); }
+    for k in kids.iter_mut() { k.stop(); }
 }
